@@ -128,20 +128,56 @@ def xop (hw : Bool) (s : State) (j : Json) : Option (State × Json) := do
       ("trace", Json.arr ((r.s.trace.drop s.trace.length).map evJ).toArray)])
   else none
 
+def outcomeJ : Outcome → Json
+  | .halted => Json.mkObj [("o", "halted")]
+  | .outOfFuel => Json.mkObj [("o", "fuel")]
+  | .fault f line => Json.mkObj [("o", "fault"), ("cls", f.pyClass), ("kind", f.name),
+      ("line", ofOpt (fun (n : Int) => toJson n) line)]
+
+/-- ops of the interleaving layer (`spawn`, `tick`) act on the subroutine table, everything else on
+the controller state -/
+def xsysop (hw : Bool) (sys : Sys) (j : Json) : Option (Sys × Json) := do
+  let k ← (jField? j "k").bind jStr?
+  if k == "spawn" then
+    let a ← (jField? j "a").bind jNat?
+    let p ← (jField? j "p").bind jArr?
+    let prog ← p.toList.mapM xinstr?
+    pure (iapply sys (.spawn a prog), Json.mkObj [("id", toJson sys.subs.length)])
+  else if k == "tick" then
+    let i ← (jField? j "i").bind jNat?
+    let os := (jField? j "or").bind jInts?
+    let sys0 : Sys := match os with
+      | some l => { sys with s := { sys.s with oracle := l } }
+      | none => sys
+    let live := match sys0.subs[i]? with | some sb => sb.fin.isNone | none => false
+    let sys' := iapply sys0 (.tick hw i)
+    let r := match sys'.subs[i]? with
+      | none => Json.mkObj [("o", "none")]
+      | some sb =>
+        if !live then Json.mkObj [("o", "done")]
+        else match sb.fin with
+          | none => Json.mkObj [("o", "live"), ("pc", toJson sb.pc)]
+          | some o => (outcomeJ o).setObjVal! "pc" (toJson sb.pc)
+    pure (sys', (r.setObjVal! "trace"
+      (Json.arr ((sys'.s.trace.drop sys.s.trace.length).map evJ).toArray)))
+  else do
+    let (s', r) ← xop hw sys.s j
+    pure (⟨s', sys.subs⟩, r)
+
 def handleExec (op : String) (j : Json) : Option Json :=
   if op == "exec.scenario" then do
     let hw ← (jField? j "hw").bind jBool?
     let appIds ← (jField? j "apps").bind jNats?
     let addrs ← (jField? j "addrs").bind jInts?
     let ops ← (jField? j "ops").bind jArr?
-    let rec go (s : State) (l : List Json) (acc : Array Json) : Option (Array Json) :=
+    let rec go (sys : Sys) (l : List Json) (acc : Array Json) : Option (Array Json) :=
       match l with
       | [] => some acc
       | o :: rest =>
-        match xop hw s o with
+        match xsysop hw sys o with
         | none => none
-        | some (s', r) => go s' rest (acc.push (Json.mkObj [("r", r), ("st", stateJ s' appIds addrs)]))
-    let outs ← go init0 ops.toList #[]
+        | some (sys', r) => go sys' rest (acc.push (Json.mkObj [("r", r), ("st", stateJ sys'.s appIds addrs)]))
+    let outs ← go sys0 ops.toList #[]
     pure (Json.mkObj [("steps", Json.arr outs)])
   else none
 
